@@ -56,6 +56,11 @@ def run(ctx):
         _bn = {m.base: m for m in facts.fns if m.config == cfg and m.cls == _c02.CLS and not m.rec.get("ctor") and not m.rec.get("dtor")}
         _c02.check_r4(_Renamed(ctx, "C02.R4", "C03.R9-cap-"), _bn, strict=True)
         queue_kind_tables(ctx, facts, cfg)
+        if cfg == "A":
+            # a statement made with run-time source metadata is turned into an ordinary Log event on every path of the decoder, whatever
+            # its template looks like: no other kind of statement event is dispatched to the sinks (= C12.R9a)
+            from rules import c12 as _c12
+            _c12.r9_runtime_metadata(_Renamed(ctx, "C12.R9a", "C03.R12"), facts, only=("C12.R9a",))
         buffered_iff_true(ctx, facts, cfg)
         from rules import c02
         from rules.c09 import Renamed
